@@ -146,6 +146,30 @@ def generate(rng, tier):
             fault = mode != "r" and rng.chance(6)
             cases.append({"kind": "with", "mode": mode, "ops": ops, "k": k, "fault": fault})
     cases.append({"kind": "with", "mode": "r+", "ops": fixed[0], "k": 2, "fault": True})
+    # exceptions escaping fetch_active_workspace blocks: every starting state x every requested mode x {raise, normal}
+    for start in ("closed_rp", "closed_r", "open_r", "open_rp"):
+        for req in ("r", "r+", "a"):
+            for rz in (True, False):
+                bodies = ["create", "rename", "read"] if tier == "thorough" else [rng.choice(["create", "rename"]), "read"]
+                for body in bodies:
+                    cases.append({"kind": "fa_exc", "start": start, "req": req, "raise": rz, "body": body})
+    # re-opening restores the *file's* content: edits through another handle (or rejected read-only writes) between close and open
+    edits_all = ["type_name", "type_units", "object_name", "data_name", "data_values", "group_name", "metadata", "object_type_name"]
+    for via in ("other", "rejected"):
+        for hold in (True, False):
+            for mode1 in (("r+", "r") if via == "other" else ("r",)):
+                cases.append({"kind": "reopen_content", "via": via, "hold": hold, "mode1": mode1, "edits": edits_all,
+                              "mode2": rng.choice([None, "r", "r+"])})
+    for _ in range(4 if tier == "quick" else 60):
+        cases.append({"kind": "reopen_content", "via": "other", "hold": rng.chance(60),
+                      "mode1": rng.choice(["r", "r+"]), "edits": rng.sample(edits_all, rng.range(1, 4)),
+                      "mode2": rng.choice([None, "r", "r+"])})
+    # in-memory (BytesIO) workspaces holding concatenated drillholes, through every way of closing
+    for end in ("close", "with_ok", "with_exc", "save_as"):
+        for extra in ([], ["add_data"], ["rename_well", "set_values"], ["remove_data", "points"]):
+            if tier == "quick" and extra and not rng.chance(60):
+                continue
+            cases.append({"kind": "mem_dh", "end": end, "extra": extra, "tok": rng.range(1, 40)})
     # getters after close, per fixture target
     info = K.reflect()
     getters = {}
@@ -207,7 +231,366 @@ def drive_one(case, work):
         return drive_with(case, work)
     if case["kind"] == "after_close":
         return drive_after_close(case, work)
+    if case["kind"] == "fa_exc":
+        return drive_fa_exc(case, work)
+    if case["kind"] == "reopen_content":
+        return drive_reopen_content(case, work)
+    if case["kind"] == "mem_dh":
+        return drive_mem_dh(case, work)
     return drive_closed_entry(case, work)
+
+
+def drive_fa_exc(case, work):
+    """an exception (or none) leaves `with fetch_active_workspace(ws, mode=req)`; ws starts closed / open r / open r+"""
+    import gc
+    import os
+    import uuid
+
+    import numpy as np
+    from geoh5py import Workspace
+    from geoh5py.objects import Points
+    from geoh5py.shared.utils import fetch_active_workspace
+    from vlib import iodrive, iofix, iotrace
+    from vlib.ioentries import Injected
+
+    path, log = iodrive.fresh_copy(work, "fa")
+    out = {"fixture_problems": log}
+    start = case["start"]
+    ws = Workspace(path, mode="r" if start == "closed_r" else "r+")
+    try:
+        out["ctor_mode"] = ws._mode  # noqa: SLF001
+        out["ncat"] = iodrive.n_concatenators(ws)
+        pts = iofix.locate(ws, "pts")
+        curve = iofix.locate(ws, "curve")
+        puid = pts.uid
+        if start in ("closed_rp", "closed_r"):
+            ws.close()
+        elif start == "open_r":
+            ws.close()
+            ws.open(mode="r")
+        out["handle_before"] = iotrace.handle_state(ws)
+        out["nfiles_before"] = iotrace.n_open_files()
+        verts = _tok_vertices(7, 3)
+        made = {}
+
+        def body(w):
+            if case["body"] == "create":
+                made["e"] = Points.create(w, vertices=verts, name="fa_made")
+            elif case["body"] == "rename":
+                pts.name = "fa_renamed"
+                made["renamed"] = True
+            else:
+                curve.vertices  # noqa: B018 - lazy read
+            if case["raise"]:
+                raise Injected("inside fetch_active_workspace")
+
+        def thunk():
+            with fetch_active_workspace(ws, mode=case["req"]) as w:
+                body(w)
+
+        out.update(iodrive.call_traced(thunk, ws))
+        out["handle_after"] = iotrace.handle_state(ws)
+        out["nfiles_after"] = iotrace.n_open_files()
+        probe = iodrive.call_traced(lambda: ws.fetch_children(ws.root), ws)
+        out["probe_exc"], out["probe_calls"] = probe["exc"], len(probe["calls"])
+        try:
+            ws.geoh5  # noqa: B018
+            out["geoh5_property"] = "handle"
+        except BaseException as e:  # noqa: BLE001
+            out["geoh5_property"] = iotrace.exc_kind(e)
+        # what completed must be in the file (only when the workspace is closed now; an open r+ handle may hold unflushed data)
+        out["persist"] = None
+        if out["handle_after"] == "closed" and out["exc"] in (None, "Injected"):
+            ws2 = Workspace(path, mode="r")
+            try:
+                if "e" in made:
+                    got = ws2.get_entity(made["e"].uid)[0]
+                    out["persist"] = got is not None and got.name == "fa_made" and np.asarray(got.vertices).tolist() == verts.tolist()
+                elif made.get("renamed"):
+                    out["persist"] = ws2.get_entity(puid)[0].name == "fa_renamed"
+            finally:
+                ws2.close()
+    finally:
+        if ws._geoh5:  # noqa: SLF001
+            try:
+                ws.close()
+            except BaseException:  # noqa: BLE001
+                ws._geoh5.close()  # noqa: SLF001
+        made = None
+        del ws
+        gc.collect()
+        out["nfiles_end"] = iotrace.n_open_files()
+        os.remove(path)
+    return out
+
+
+def _describe(ws, uids):
+    """what the API shows for the tracked entities, through fresh look-ups"""
+    import uuid
+
+    import numpy as np
+
+    view = {}
+    for label, u in uids.items():
+        e = ws.get_entity(uuid.UUID(u))[0]
+        if e is None:
+            view[label] = None
+            continue
+        d = {"name": e.name, "type_name": e.entity_type.name}
+        if hasattr(e.entity_type, "units"):
+            d["type_units"] = e.entity_type.units
+        if label == "data":
+            d["values"] = np.asarray(e.values).tolist()
+        if label == "object":
+            d["metadata"] = e.metadata
+        view[label] = d
+    return view
+
+
+def drive_reopen_content(case, work):
+    import gc
+    import os
+    import uuid
+
+    import numpy as np
+    from geoh5py import Workspace
+    from vlib import iodrive, iofix, iotrace
+
+    path, log = iodrive.fresh_copy(work, "rc")
+    out = {"fixture_problems": log}
+    ws = Workspace(path, mode=case["mode1"])
+    held = []
+    try:
+        pts = iofix.locate(ws, "pts")
+        dat = next(c for c in pts.children if getattr(c, "name", None) == "f")
+        grp = iofix.locate(ws, "container")
+        uids = {"object": str(pts.uid), "data": str(dat.uid), "group": str(grp.uid)}
+        if case["hold"]:
+            held = [pts, dat, grp, dat.entity_type, pts.entity_type]      # the caller's variables, kept across the re-open
+        new = {"type_name": "type renamed", "type_units": "ppm", "object_name": "pts renamed", "data_name": "f renamed",
+               "data_values": (np.arange(6.0) + 100).tolist(), "group_name": "container renamed", "metadata": {"edited": 1},
+               "object_type_name": "points type renamed"}
+
+        def apply(w, tolerate):
+            o = w.get_entity(uuid.UUID(uids["object"]))[0]
+            d = w.get_entity(uuid.UUID(uids["data"]))[0]
+            g = w.get_entity(uuid.UUID(uids["group"]))[0]
+            setters = {
+                "type_name": lambda: setattr(d.entity_type, "name", new["type_name"]),
+                "type_units": lambda: setattr(d.entity_type, "units", new["type_units"]),
+                "object_name": lambda: setattr(o, "name", new["object_name"]),
+                "data_name": lambda: setattr(d, "name", new["data_name"]),
+                "data_values": lambda: setattr(d, "values", np.asarray(new["data_values"])),
+                "group_name": lambda: setattr(g, "name", new["group_name"]),
+                "metadata": lambda: setattr(o, "metadata", dict(new["metadata"])),
+                "object_type_name": lambda: setattr(o.entity_type, "name", new["object_type_name"]),
+            }
+            res = {}
+            for k in case["edits"]:
+                try:
+                    setters[k]()
+                    res[k] = None
+                except BaseException as e:  # noqa: BLE001
+                    res[k] = iotrace.exc_kind(e)
+                    if not tolerate:
+                        raise
+            return res
+
+        del pts, dat, grp
+        if case["via"] == "rejected":
+            out["rejected"] = apply(ws, True)          # read-only session: memory may change, every write must be refused
+        ws.close()
+        if case["via"] == "other":
+            with Workspace(path, mode="r+") as other:
+                out["other"] = apply(other, False)
+            del other
+        out["nfiles_mid"] = iotrace.n_open_files()
+        d = iodrive.call_traced(lambda: ws.open(mode=case["mode2"]), ws)
+        out["open_exc"] = d["exc"]
+        out["handle_reopened"] = iotrace.handle_state(ws)
+        out["view_same"] = _describe(ws, uids)
+        out["same_object_returned"] = bool(held) and ws.get_entity(uuid.UUID(uids["data"]))[0] is held[1]
+        ws.close()
+        ws3 = Workspace(path, mode="r")
+        out["view_file"] = _describe(ws3, uids)
+        ws3.close()
+        del ws3
+    finally:
+        if ws._geoh5:  # noqa: SLF001
+            ws.close()
+        held.clear()
+        del ws
+        gc.collect()
+        out["nfiles_end"] = iotrace.n_open_files()
+        os.remove(path)
+    return out
+
+
+def drive_mem_dh(case, work):
+    """in-memory workspace with concatenated drillholes; every way of closing; the bytes must hold what was done"""
+    import gc
+    import io
+    import os
+    import shutil
+
+    import numpy as np
+    from geoh5py import Workspace
+    from geoh5py.groups import DrillholeGroup
+    from geoh5py.objects import Drillhole, Points
+    from vlib import iodrive, iotrace
+    from vlib.ioentries import Injected
+
+    tmp = os.path.join(work, f"tmpmem_{os.getpid()}")
+    shutil.rmtree(tmp, ignore_errors=True)
+    os.makedirs(tmp)
+    out = {"ops": [], "nfiles_before": iotrace.n_open_files()}
+    tok = case["tok"]
+    expected = {}
+
+    def steps(ws):
+        box = {}
+
+        def mk_group():
+            box["g"] = DrillholeGroup.create(ws, name="DH_group")
+
+        def mk_well(nm):
+            def f():
+                box[nm] = Drillhole.create(ws, parent=box["g"], name=nm, collar=np.r_[0.0, 10.0, 10.0], surveys=np.c_[
+                    np.linspace(0, 100, 5), np.ones(5) * 45.0, np.linspace(-89, -75, 5)])
+                expected[nm] = {}
+            return f
+
+        def add(nm, dn, shift):
+            def f():
+                vals = np.arange(10.0) + shift
+                box[nm].add_data({dn: {"depth": np.arange(0, 10.0), "values": vals}})
+                expected[nm][dn] = vals.tolist()
+            return f
+
+        yield "group", mk_group
+        for nm in ("well_A", "well_B"):
+            yield "well", mk_well(nm)
+            yield "add_data", add(nm, "assay", tok)
+        for x in case["extra"]:
+            if x == "add_data":
+                yield x, add("well_A", "second", tok + 1)
+            elif x == "rename_well":
+                def f():
+                    box["well_B"].name = "well_B2"
+                    expected["well_B2"] = expected.pop("well_B")
+                yield x, f
+            elif x == "set_values":
+                def f():
+                    d = box["well_A"].get_data("assay")[0]
+                    vals = np.arange(10.0) + tok + 5
+                    d.values = vals
+                    expected["well_A"]["assay"] = vals.tolist()
+                yield x, f
+            elif x == "remove_data":
+                def f():
+                    d = box["well_B"].get_data("assay")[0]
+                    ws.remove_entity(d)
+                    expected["well_B"].pop("assay")
+                yield x, f
+            elif x == "points":
+                def f():
+                    p = Points.create(ws, vertices=_tok_vertices(tok, 3), name="mem_pts")
+                    p.add_data({"pv": {"values": np.arange(3.0)}})
+                yield x, f
+
+    def run_steps(ws):
+        for name, f in steps(ws):
+            rec = {"step": name, "handle_before": iotrace.handle_state(ws)}
+            rec.update(iodrive.call_traced(f, ws))
+            rec["handle_after"] = iotrace.handle_state(ws)
+            out["ops"].append(rec)
+            if rec["exc"] is not None:
+                raise RuntimeError("step failed: " + name + " " + str(rec["exc"]) + " " + rec["msg"])
+
+    def describe(ws):
+        found = {}
+        for g in ws.groups:
+            if isinstance(g, DrillholeGroup):
+                for well in g.children:
+                    found[well.name] = {n: np.asarray(well.get_data(n)[0].values).tolist() for n in well.get_data_list()
+                                        if n not in ("DEPTH", "FROM", "TO")}
+        return found
+
+    def check(label, reopen):
+        try:
+            w = reopen()
+            try:
+                got = describe(w)
+            finally:
+                w.close()
+            out["views"][label] = got
+        except BaseException as e:  # noqa: BLE001
+            out["views"][label] = f"ERROR {type(e).__name__}: {str(e)[:100]}"
+
+    out["views"] = {}
+    end = case["end"]
+    ws = None
+    try:
+        tr = None
+        if end in ("with_ok", "with_exc"):
+            try:
+                with Workspace() as ws:
+                    out["handle0"], out["ctor_mode"] = iotrace.handle_state(ws), ws._mode  # noqa: SLF001
+                    run_steps(ws)
+                    out["ncat"] = iodrive.n_concatenators(ws)
+                    tr = iotrace.Trace()
+                    tr.__enter__()
+                    if end == "with_exc":
+                        raise Injected("after the operations")
+            except Injected:
+                out["exc"] = "Injected"
+            else:
+                out["exc"] = None
+            finally:
+                if tr is not None:
+                    tr.__exit__(None, None, None)
+            if tr is None:
+                raise RuntimeError("block did not reach its end")
+            end_rec = {"calls": [[c["fn"], c["mode"], c["file"], c["line"], c["handle"], c["out"], c["repack"], c["in_close"]]
+                                 for c in tr.calls if c["ws"] == id(ws)],
+                       "entries": [[e["fn"], e["hmode"], e["out"]] for e in tr.entries if e["hfile"] == repr(ws.h5file)]}
+        else:
+            ws = Workspace()
+            out["handle0"], out["ctor_mode"] = iotrace.handle_state(ws), ws._mode  # noqa: SLF001
+            run_steps(ws)
+            out["ncat"] = iodrive.n_concatenators(ws)
+            if end == "close":
+                end_rec = iodrive.call_traced(ws.close, ws)
+            else:
+                dst = os.path.join(tmp, "saved.geoh5")
+                end_rec = iodrive.call_traced(lambda: ws.save_as(dst), ws)
+            out["exc"] = end_rec["exc"]
+            out["exc_msg"] = end_rec["msg"]
+        out["end"] = {"calls": end_rec["calls"], "entries": end_rec["entries"]}
+        out["handle_after"] = iotrace.handle_state(ws)
+        if end == "save_as":
+            if ws._geoh5:  # noqa: SLF001
+                ws.close()
+            check("saved file, new Workspace", lambda: Workspace(os.path.join(tmp, "saved.geoh5"), mode="r"))
+        else:
+            out["nfiles_after"] = iotrace.n_open_files()
+            check("same instance", lambda: ws.open(mode="r"))
+            raw = ws.h5file.getvalue()
+            check("bytes, new Workspace", lambda: Workspace(io.BytesIO(raw), mode="r"))
+        out["expected"] = expected
+    except RuntimeError as e:
+        out["not_driven"] = str(e)[:200]
+    finally:
+        if ws is not None and ws._geoh5:  # noqa: SLF001
+            try:
+                ws.close()
+            except BaseException:  # noqa: BLE001
+                ws._geoh5.close()  # noqa: SLF001
+        del ws
+        gc.collect()
+        out["nfiles_end"] = iotrace.n_open_files()
+        shutil.rmtree(tmp, ignore_errors=True)
+    return out
 
 
 def drive_closed_entry(case, work):
@@ -583,7 +966,7 @@ def _op_term_with(op, rec):
             cs = cs[:-1] + ("; " if body else "") + PY_FAIL + "]"
             err = "(Some EFail)"
         return f"(FetchActive {K.MODES[op['mode']]} {cs})", err
-    cs = K.c_calls(calls)
+    cs = K.c_calls_rp(rec, calls)
     if own_fail:
         cs = cs[:-1] + ("; " if calls else "") + PY_FAIL + "]"
         err = "(Some EFail)"
@@ -624,6 +1007,38 @@ def case_term(case, obs):
                 % (K.c_handle(obs["handle0"]), K.MODES[obs["ctor_mode"]], cbool(bool(obs.get("fault_fired"))), cnat(obs.get("ncat", 1)),
                    clist(ops), cnat(case["k"]),
                    oe, K.c_handle(obs["handle_after"]), K.c_log(log), K.c_sites(sites)))
+    if case["kind"] == "fa_exc":
+        t, e = _op_term_with({"op": "fetch_active", "mode": case["req"]}, obs)
+        return ("agree_run %s %s false %s [%s] [%s] [%s] %s && sites_ok IOT %s"
+                % (K.c_handle(obs["handle_before"]), K.MODES[obs["ctor_mode"]], cnat(obs.get("ncat", 1)), t, e,
+                   K.c_handle(obs["handle_after"]), K.c_log(obs["entries"]), K.c_sites(obs["calls"])))
+    if case["kind"] == "reopen_content":
+        if obs.get("open_exc") is not None:
+            return "false"
+        m2 = "None" if case["mode2"] is None else f"(Some {K.MODES[case['mode2']]})"
+        return ("agree_run Closed %s false 1 [OpenM %s] [None] [%s] []"
+                % (K.MODES[case["mode1"]], m2, K.c_handle(obs["handle_reopened"])))
+    if case["kind"] == "mem_dh":
+        ops, outs, hs, sites, log = [], [], [], [], []
+        for rec in obs["ops"]:
+            ops.append(f"(Calls {K.c_calls_rp(rec)})")
+            outs.append(K.c_err(rec["exc"], rec["calls"]))
+            hs.append(K.c_handle(rec["handle_after"]))
+            sites += rec["calls"]
+            log += rec["entries"]
+        sites += obs["end"]["calls"]
+        log += obs["end"]["entries"]
+        h0, dm, nc = K.c_handle(obs["handle0"]), K.MODES[obs["ctor_mode"]], cnat(obs.get("ncat", 1))
+        if case["end"] in ("with_ok", "with_exc"):
+            k = len(ops) if case["end"] == "with_ok" else len(ops)
+            opsx = ops + (["(Calls [])"] if case["end"] == "with_exc" else [])
+            oe = "(Some EInjected)" if obs["exc"] == "Injected" else "None"
+            return ("agree_with %s %s false %s %s %s %s %s %s && sites_ok IOT %s"
+                    % (h0, dm, nc, clist(opsx), cnat(k), oe, K.c_handle(obs["handle_after"]), K.c_log(log), K.c_sites(sites)))
+        endop = "Close" if case["end"] == "close" else "SaveAs"
+        return ("agree_run %s %s false %s %s %s %s %s && sites_ok IOT %s"
+                % (h0, dm, nc, clist(ops + [endop]), clist(outs + [K.c_err(obs["exc"], obs["end"]["calls"])]),
+                   clist(hs + [K.c_handle(obs["handle_after"])]), K.c_log(log), K.c_sites(sites)))
     if case["kind"] == "after_close":
         ops, outs, hs, sites = [], [], [], []
         for g in obs["getters"]:
@@ -681,6 +1096,71 @@ def oracle(case, obs):
         if obs["nfiles_end"] != obs["nfiles_before"]:
             fails.append({"key": "hdf5-handle-leak-end", "what": "open HDF5 files at the end of the case"})
         return fails
+    if case["kind"] == "fa_exc":
+        hb = obs["handle_before"]
+        # the helper keeps the workspace when it is open and the requested mode string occurs in the handle's mode string
+        reopened = hb == "closed" or case["req"] not in hb
+        tag = f"{case['start']}:{case['req']}:{'raise' if case['raise'] else 'normal'}"
+        if case["raise"] and obs["exc"] is None:
+            fails.append({"key": "exception-swallowed:fetch_active_workspace", "what": f"the exception did not leave the block ({tag})"})
+        if reopened:
+            if obs["handle_after"] != "closed":
+                fails.append({"key": "helper-left-workspace-open:fetch_active_workspace",
+                              "what": f"fetch_active_workspace had to (re-)open the workspace ({tag}, body {case['body']}, block ended with "
+                                      f"{obs['exc']}) and left it in mode {obs['handle_after']}"})
+            if obs["nfiles_after"] != 0:
+                fails.append({"key": "hdf5-handle-leak:fetch_active_workspace", "what": f"{obs['nfiles_after']} HDF5 file(s) open after the block ({tag})"})
+            if obs["probe_exc"] != "Closed":
+                fails.append({"key": "use-after-close:" + str(obs["probe_exc"]),
+                              "what": f"fetch_children after the block returned/raised {obs['probe_exc']} instead of the closed-file error ({tag})"})
+            if obs["geoh5_property"] != "Closed":
+                fails.append({"key": "geoh5-after-close:" + str(obs["geoh5_property"]), "what": f"ws.geoh5 after the block: {obs['geoh5_property']} ({tag})"})
+            if obs["persist"] is False:
+                fails.append({"key": "completed-op-lost:fetch_active_workspace", "what": f"the operation completed inside the block is not in the file ({tag})"})
+        elif obs["handle_after"] != hb:
+            fails.append({"key": "helper-changed-handle:fetch_active_workspace", "what": f"handle {hb} -> {obs['handle_after']} although the mode was suitable ({tag})"})
+        if obs["nfiles_end"] != 0:
+            fails.append({"key": "hdf5-handle-leak-end", "what": "open HDF5 files at the end of the case"})
+        return fails
+    if case["kind"] == "reopen_content":
+        if obs.get("open_exc") is not None:
+            fails.append({"key": "reopen-same-object-failed", "what": f"ws.open() raised {obs['open_exc']}"})
+            return fails
+        if case["via"] == "rejected":
+            for k, e in obs.get("rejected", {}).items():
+                if e is None:
+                    pass      # setters that never write through are C03's subject; what matters here is the view after re-open
+        vs, vf = obs["view_same"], obs["view_file"]
+        for label in sorted(vf):
+            a, b = vs.get(label), vf[label]
+            if a == b:
+                continue
+            fields = [f for f in (b or {}) if (a or {}).get(f) != b[f]] if a and b else ["entity"]
+            for f in fields[:3]:
+                fails.append({"key": f"reopen-stale:{label}.{f}",
+                              "what": f"after close + ws.open() the {label}'s {f} is {(a or {}).get(f)!r}, the file (second Workspace) says "
+                                      f"{(b or {}).get(f)!r} (via {case['via']}, held references: {case['hold']}, edits {case['edits']})"[:500]})
+        if obs.get("same_object_returned"):
+            fails.append({"key": "reopen-returns-old-object", "what": "after re-open get_entity returns the entity object of the previous session"})
+        if obs["nfiles_end"] != 0 or obs["nfiles_mid"] != 0:
+            fails.append({"key": "hdf5-handle-leak", "what": "open HDF5 files between / after the sessions"})
+        return fails
+    if case["kind"] == "mem_dh":
+        end = case["end"]
+        if end in ("close", "save_as") and obs.get("exc") is not None:
+            fails.append({"key": f"{end}-raised:{obs['exc']}", "what": f"{end} of an in-memory workspace with drillholes raised {obs['exc']}: {obs.get('exc_msg')}"})
+        if end == "with_exc" and obs.get("exc") != "Injected":
+            fails.append({"key": "exception-swallowed", "what": "the exception did not leave the with-block"})
+        if end != "save_as" and obs["handle_after"] != "closed":
+            fails.append({"key": "handle-open-after-exit", "what": f"in-memory workspace still {obs['handle_after']} after {end}"})
+        for label, got in obs["views"].items():
+            if isinstance(got, str):
+                fails.append({"key": f"file-not-reopenable:mem:{end}", "what": f"[{label}] {got} (extra ops {case['extra']})"})
+            elif got != obs["expected"]:
+                fails.append({"key": f"completed-op-lost:mem:{end}", "what": f"[{label}] drillholes after re-open {str(got)[:200]} expected {str(obs['expected'])[:200]}"})
+        if obs["nfiles_end"] != obs["nfiles_before"]:
+            fails.append({"key": "hdf5-handle-leak-end", "what": "open HDF5 files at the end of the case"})
+        return fails
     if case["kind"] == "after_close":
         if obs["handle"] != "closed" or obs["nfiles_after_close"] != 0:
             fails.append({"key": "handle-open-after-close", "what": f"handle {obs['handle']}, {obs['nfiles_after_close']} open files after close()"})
@@ -720,6 +1200,12 @@ def nontrivial(case, obs):
         return wrote >= 2 and case["k"] < len(case["ops"])
     if case["kind"] == "after_close":
         return any(g["calls"] for g in obs["getters"])
+    if case["kind"] == "fa_exc":
+        return obs["handle_before"] == "closed" or case["req"] not in obs["handle_before"]
+    if case["kind"] == "reopen_content":
+        return obs.get("view_file") is not None
+    if case["kind"] == "mem_dh":
+        return True
     return bool(obs["closed"]["calls"])
 
 
@@ -744,6 +1230,17 @@ def histogram(cases, obs):
                 h["fault_injected"] += 1
                 h["fault_leaves_handle_open"] += int(o["handle_after"] != "closed")
             h["expected_effects_checked"] += o.get("n_expected", 0)
+        elif c["kind"] == "fa_exc":
+            k = f"{c['start']}:{c['req']}:{'raise' if c['raise'] else 'normal'}->{o['handle_after']}/{o['exc']}"
+            h.setdefault("fetch_active_exits", {})
+            h["fetch_active_exits"][k] = h["fetch_active_exits"].get(k, 0) + 1
+        elif c["kind"] == "reopen_content":
+            k = f"{c['via']}:hold={c['hold']}:{c['mode1']}->{c['mode2']}"
+            h.setdefault("reopen_content", {})
+            h["reopen_content"][k] = h["reopen_content"].get(k, 0) + 1
+        elif c["kind"] == "mem_dh":
+            h.setdefault("in_memory_drillholes", {})
+            h["in_memory_drillholes"][c["end"]] = h["in_memory_drillholes"].get(c["end"], 0) + 1
         elif c["kind"] == "after_close":
             for g in o["getters"]:
                 k = "Closed" if g["exc"] == "Closed" else ("value" if g["exc"] is None else "other:" + str(g["exc"]))
